@@ -1344,7 +1344,8 @@ PROPS["C11"] = Spec(
 from . import cli  # noqa: E402
 import subprocess as _sp  # noqa: E402
 
-MESSY = ["begin\n  X  :=   1 ;\n\n\n\n  Foo (  a,b ) ;\nend.\n", "procedure   P ;\nbegin\nend;\n", "x:=1;", "begin end.\n", "",
+MESSY = ["\ufeffbegin\n  X  :=   1 ;\nend.\n", "\ufeff\ufeff a ;\n", "x := '\ufeff' ;\n// \ufffe \ufeff\n",
+         "begin\n  X  :=   1 ;\n\n\n\n  Foo (  a,b ) ;\nend.\n", "procedure   P ;\nbegin\nend;\n", "x:=1;", "begin end.\n", "",
          "unit A;\ninterface\nuses  B ,  C;\nimplementation\nend.\n", "// é comment   \nbegin  end.", "const S = 'äöü日本';\n"]
 
 
@@ -1421,7 +1422,13 @@ def run_file_layer(ctx, prop):
             except UnicodeEncodeError:
                 t = text.encode("ascii", "ignore").decode()
                 body = t.encode(codec)
-            jobs.append({"i": k, "text": t, "bytes": bom + body, "ename": ename, "codec": codec, "bom": bom, "mname": mname, "malformed": False})
+            jbom = bom
+            if not bom and codec in ("utf-8", "utf-16-le", "utf-16-be") and t.startswith("\ufeff"):
+                # a leading U+FEFF in a BOM-less UTF file IS a byte-order mark for the sniffer
+                jbom = "\ufeff".encode(codec)
+                t = t[1:]
+                body = t.encode(codec)
+            jobs.append({"i": k, "text": t, "bytes": jbom + body, "ename": ename, "codec": codec, "bom": jbom, "mname": mname, "malformed": False})
             k += 1
     # malformed inputs
     BAD = {"utf-8": [b"begin \xff\xfe\xfd end.", b"\xc3(", b"\xed\xa0\x80", b"\xf4\x90\x80\x80", b"\xc0\xaf", b"abc\xe3\x80"],
@@ -1561,7 +1568,7 @@ def run_c16(ctx):
     rng = ctx.rng
     # path forms: file, directory, glob, --files-from: every form formats the same set of files identically
     d = os.path.join(wd, "forms")
-    texts = cli_contents(ctx, 6)[:12]
+    texts = cli_contents(ctx, 30)[:34]
 
     def populate(root):
         os.makedirs(os.path.join(root, "sub"), exist_ok=True)
@@ -1571,6 +1578,9 @@ def run_c16(ctx):
             open(p, "wb").write(t.encode("utf-8"))
             paths.append(p)
         open(os.path.join(root, "ignored.txt"), "wb").write(b"begin  end.")
+        # files that cannot be decoded, among the others: they stay untouched, the others are still formatted
+        for nm in ("a_bad.pas", os.path.join("sub", "m_bad.dpr")):
+            open(os.path.join(root, nm), "wb").write(b"begin \xff\xfe end.")
         return paths
 
     outs = {}
@@ -1585,16 +1595,20 @@ def run_c16(ctx):
             args = [os.path.join(root, "*.pas"), os.path.join(root, "*.dp?"), os.path.join(root, "sub", "*")]
         else:
             lst = os.path.join(root, "list.txt")
-            open(lst, "w").write("\n".join(paths) + "\n")
+            allp = sorted(paths + [os.path.join(root, "a_bad.pas"), os.path.join(root, "sub", "m_bad.dpr")])
+            open(lst, "w").write("\n".join(allp) + "\n")
             args = ["--files-from", lst]
-        rc, so, se = cli.run(["--config-file", ecfg] + args, root)
-        outs[form] = (rc, [open(p, "rb").read() for p in paths], open(os.path.join(root, "ignored.txt"), "rb").read())
+        if form == "file":
+            args = sorted(args + [os.path.join(root, "a_bad.pas"), os.path.join(root, "sub", "m_bad.dpr")])
+        rc, so, se = cli.run(["--config-file", ecfg] + args, root, env={"RAYON_NUM_THREADS": rng.choice(["1", "2"])})
+        bad_ok = all(open(os.path.join(root, nm), "rb").read() == b"begin \xff\xfe end." for nm in ("a_bad.pas", os.path.join("sub", "m_bad.dpr")))
+        outs[form] = (rc, [open(p, "rb").read() for p in paths], open(os.path.join(root, "ignored.txt"), "rb").read(), bad_ok)
         ctx.count("path_forms")
     expect = [cli.run(["--config-file", ecfg], wd, stdin=t.encode("utf-8"))[1] for t in texts]
-    for form, (rc, got, ign) in outs.items():
-        if rc != 0 or got != expect or ign != b"begin  end.":
-            ctx.fail("path_form_differs", None, "path form %s: rc=%d, %d of %d files differ from stdin formatting, ignored file touched=%s" % (
-                form, rc, sum(1 for a, b in zip(got, expect) if a != b), len(expect), ign != b"begin  end."))
+    for form, (rc, got, ign, bad_ok) in outs.items():
+        if rc == 0 or got != expect or ign != b"begin  end." or not bad_ok:
+            ctx.fail("path_form_differs", None, "path form %s with two undecodable files among %d: exit status %d (must be non-zero), %d files differ from stdin formatting, ignored file touched=%s, undecodable files untouched=%s" % (
+                form, len(expect), rc, sum(1 for a, b in zip(got, expect) if a != b), ign != b"begin  end.", bad_ok))
     # files + stdin is rejected; stdin defaults to stdout mode
     rc, so, se = cli.run(["--config-file", ecfg, "--mode", "files"], wd, stdin=b"begin end.")
     if rc == 0:
